@@ -141,7 +141,7 @@ func c03Float(rng *h.Rng) float64 {
 	case 1:
 		return float64(rng.Intn(2000)-1000) / 8
 	case 2:
-		return h.Pick(rng, []float64{0, 1e-9, 1e21, -1e21, 5e-324, 1.7976931348623157e308, 0.1, 1.0 / 3})
+		return h.Pick(rng, []float64{0, mathFromBits(1 << 63), 1e-9, 1e21, -1e21, 5e-324, 1.7976931348623157e308, 0.1, 1.0 / 3})
 	default:
 		for {
 			f := mathFromBits(rng.U64())
